@@ -9,6 +9,8 @@ ToSet(s) == {s[i] : i \in 1..Len(s)}
 TRecv == More /\ Ev.e = "HRecv" /\ HRecv(Ev.chan, Ev.k) /\ Adv
 TDone == More /\ Ev.e = "HDone" /\ HDone(ToSet(Ev.order)) /\ Adv
 TOut == More /\ Ev.e = "Outcome" /\ Outcome(Ev.k, Ev.kind, Ev.k2) /\ Adv
-TNext == TRecv \/ TDone \/ TOut
+TVerdict == More /\ Ev.e = "HVerdict" /\ HVerdict(Ev.q, Ev.v) /\ Adv
+TDecided == More /\ Ev.e = "Decided" /\ Decided(Ev.alts) /\ Adv
+TNext == TRecv \/ TDone \/ TOut \/ TVerdict \/ TDecided
 Mark == MarkAccepted(h, l)
 ====
